@@ -182,10 +182,10 @@ Proof.
     apply (NS _ _ _ X).
   - destruct cd1 as [|c1 cs1]; [destruct subs1; simpl in *; discriminate|].
     destruct cd2 as [|c2 cs2]; [destruct subs2; simpl in *; discriminate|].
-    rewrite <- !app_assoc in E. cbn [app] in E.
+    repeat (rewrite <- app_assoc in E || rewrite <- app_comm_cons in E).
     apply split_first in E; auto. destruct E as [EJ E].
     apply join_uuid_inj in EJ; auto. subst subs2. split; auto.
-    rewrite <- !app_assoc in E. cbn [app] in E.
+    repeat (rewrite <- app_assoc in E || rewrite <- app_comm_cons in E).
     assert (NN : forall l, Forall okname l -> ~ In 0 (join [58] l)).
     { intros l Hl. apply join_not_in; [simpl; lia|]. eapply Forall_impl; [|exact Hl]. intros a [Ha _]; exact Ha. }
     apply split_first in E; auto. destruct E as [EN E].
@@ -205,3 +205,321 @@ Proof.
     + intros l1 l2 -> ->. rewrite (Lp1 _ eq_refl), (Lp2 _ eq_refl). reflexivity.
     + intros l1 l2 -> ->. rewrite (Lk1 _ eq_refl), (Lk2 _ eq_refl). reflexivity.
 Qed.
+
+(* ================================================================== terms *)
+
+Definition kinds : list str := [s_tuple; s_array; s_range; s_multirange].
+
+(* the structure the property talks about: what is left of a type term when the attributes
+   that never enter an id (collection names / persistence, the material object type except
+   its name, free-object flag, element sources) are blanked *)
+Definition skel_pi (lp : bool) (pi : pinfo) : pinfo :=
+  mkPinfo (pname pi) (if lp then false else plink pi) (preq pi) (pmulti pi) (ORegular [] []).
+
+Fixpoint skel (t : ty) : ty :=
+  match t with
+  | TScalar s => TScalar s
+  | TTuple named _ _ els => TTuple named false [] (map (fun p => (fst p, skel (snd p))) els)
+  | TArray _ _ el => TArray false [] (skel el)
+  | TRange _ _ el => TRange false [] (skel el)
+  | TMultiRange _ _ el => TMultiRange false [] (skel el)
+  | TShape mt _ impl ptrs lps =>
+      TShape (ORegular [] (oname mt)) false impl
+             (map (fun p => (skel_pi false (fst p), skel (snd p))) ptrs)
+             (map (fun p => (skel_pi true (fst p), skel (snd p))) lps)
+  | TInput mt _ _ => TInput (ORegular [] (oname mt)) false []
+  end.
+
+Section Main.
+Variable H : str -> uuid.
+Hypothesis H_wf : forall s, wf_uuid (H s).
+Variable c : cfg.
+Hypothesis Hflt : flt c = [].
+Hypothesis Hfollow : follow c = true.
+
+Variable Sset : str -> Prop.        (* the strings that get hashed for the types at hand *)
+Variable Gset : uuid -> Prop.       (* ids that are given (schema object ids), not hashed *)
+Variable ScSet : scalar -> Prop.    (* the scalar types of the schema at hand *)
+Hypothesis NoCollide : forall a b, Sset a -> Sset b -> H a = H b -> a = b.
+Hypothesis Fresh : forall s g, Sset s -> Gset g -> H s <> g.
+Hypothesis G_empty : Gset ID_EMPTY_TUPLE.
+Hypothesis ScById : forall a b, ScSet a -> ScSet b -> sid a = sid b -> a = b.
+
+Notation tid' := (tid H c).
+
+Definition plain_elem (p : pinfo * ty) : elem :=
+  mkElem (if pmulti (fst p) then set_id H (tid' (snd p)) else tid' (snd p))
+         (pname (fst p)) false (plink (fst p)) (card_of (preq (fst p)) (pmulti (fst p)))
+         (psource (fst p)).
+
+Lemma ptr_elem_plain : forall p, ptr_elem H c tid' p = Some (plain_elem p).
+Proof.
+  intros p. unfold ptr_elem, plain_elem. rewrite Hflt, Hfollow. cbn [is_prefix negb length skipn].
+  rewrite andb_false_r. reflexivity.
+Qed.
+
+Lemma somes_map_some : forall {A B} (g : A -> B) l, somes (map (fun a => Some (g a)) l) = map g l.
+Proof. induction l; simpl; congruence. Qed.
+
+Lemma shape_elems_plain : forall mt ptrs lps,
+  somes (map (ptr_elem H c tid') ptrs) ++ map (lprop_elem H tid' mt) lps
+  = map plain_elem ptrs ++ map (lprop_elem H tid' mt) lps.
+Proof.
+  intros. f_equal. rewrite <- (somes_map_some plain_elem). f_equal. apply map_ext.
+  intros; apply ptr_elem_plain.
+Qed.
+
+Definition set_str (t : ty) : str := s_setof ++ uuid_str (tid' t).
+Definition elem_set_ok (p : pinfo * ty) : Prop := pmulti (fst p) = true -> Sset (set_str (snd p)).
+
+Definition shape_str mt impl ptrs lps : str :=
+  let els := map plain_elem ptrs ++ map (lprop_elem H tid' mt) lps in
+  shape_idstr (oname mt) (map e_sub els) (map e_name els) (map e_card els) impl
+              (Some (map e_lp els)) (Some (map e_link els)).
+
+(* conditions on one node of a term *)
+Definition own_ok (t : ty) : Prop :=
+  match t with
+  | TScalar sc => wf_uuid (sid sc) /\ sid sc <> ID_EMPTY_TUPLE /\ Gset (sid sc) /\ ScSet sc
+  | TTuple named _ _ els =>
+      (named = true -> els <> []) /\ (named = true -> Forall okname (map fst els)) /\
+      (els <> [] -> Sset (coll_idstr s_tuple (map (fun p => tid' (snd p)) els)
+                                     (if named then Some (map fst els) else None)))
+  | TArray _ _ el => Sset (coll_idstr s_array [tid' el] None)
+  | TRange _ _ el => Sset (coll_idstr s_range [tid' el] None)
+  | TMultiRange _ _ el => Sset (coll_idstr s_multirange [tid' el] None)
+  | TShape mt _ impl ptrs lps =>
+      nonul (oname mt) /\ ~ In (oname mt) kinds /\
+      Forall okname (map (fun p => pname (fst p)) (ptrs ++ lps)) /\
+      Sset (shape_str mt impl ptrs lps) /\ Forall elem_set_ok (ptrs ++ lps)
+  | TInput _ _ _ => False
+  end.
+
+Fixpoint all_ok (t : ty) : Prop :=
+  own_ok t /\
+  match t with
+  | TTuple _ _ _ els =>
+      (fix go (l : list (str * ty)) : Prop :=
+         match l with [] => True | p :: r => all_ok (snd p) /\ go r end) els
+  | TArray _ _ el | TRange _ _ el | TMultiRange _ _ el => all_ok el
+  | TShape _ _ _ ptrs lps =>
+      (fix go (l : list (pinfo * ty)) : Prop :=
+         match l with [] => True | p :: r => all_ok (snd p) /\ go r end) ptrs /\
+      (fix go (l : list (pinfo * ty)) : Prop :=
+         match l with [] => True | p :: r => all_ok (snd p) /\ go r end) lps
+  | _ => True
+  end.
+
+Lemma go_forall : forall {A} (l : list (A * ty)),
+  (fix go (l : list (A * ty)) : Prop :=
+     match l with [] => True | p :: r => all_ok (snd p) /\ go r end) l
+  <-> Forall (fun p => all_ok (snd p)) l.
+Proof.
+  induction l as [|p r IH]; split; intro X; auto.
+  - destruct X as [X1 X2]. constructor; auto. apply IH; auto.
+  - inversion X; subst. split; auto. apply IH; auto.
+Qed.
+
+Lemma all_ok_own : forall t, all_ok t -> own_ok t.
+Proof. intros t X. destruct t; cbn [all_ok] in X; destruct X as [X _]; exact X. Qed.
+
+Lemma wf_empty : wf_uuid ID_EMPTY_TUPLE.
+Proof. split; [reflexivity|]. repeat constructor. Qed.
+
+Lemma tid_wf : forall t, all_ok t -> wf_uuid (tid' t).
+Proof.
+  intros t X. apply all_ok_own in X. destruct t; cbn [tid own_ok] in *.
+  - tauto.
+  - unfold tuple_id. destruct (map (fun p => tid' (snd p)) els); [apply wf_empty|apply H_wf].
+  - apply H_wf.
+  - apply H_wf.
+  - apply H_wf.
+  - apply H_wf.
+  - contradiction.
+Qed.
+
+Lemma kinds_nonul : forall k, In k kinds -> nonul k.
+Proof.
+  intros k Hk. unfold kinds in Hk. simpl in Hk.
+  destruct Hk as [<-|[<-|[<-|[<-|[]]]]]; intro Hi; simpl in Hi; lia.
+Qed.
+
+Lemma heads_eq : forall h1 h2 r1 r2, nonul h1 -> nonul h2 ->
+  h1 ++ 0 :: r1 = h2 ++ 0 :: r2 -> h1 = h2.
+Proof. intros h1 h2 r1 r2 N1 N2 E. apply split_first in E; auto. destruct E; auto. Qed.
+
+Lemma coll_head : forall k subs n,
+  coll_idstr k subs n = k ++ 0 :: (join [58] (map uuid_str subs) ++ names_tail n).
+Proof. reflexivity. Qed.
+
+Lemma shape_head : forall mt impl ptrs lps, exists r, shape_str mt impl ptrs lps = oname mt ++ 0 :: r.
+Proof. intros. unfold shape_str. rewrite shape_idstr_unfold. eexists. reflexivity. Qed.
+
+(* the id of a type is either given (scalar, empty tuple) or the hash of a string with a head *)
+Inductive idkind := KGiven | KHash (head : str).
+
+Definition tkind (t : ty) : idkind :=
+  match t with
+  | TScalar _ => KGiven
+  | TTuple _ _ _ [] => KGiven
+  | TTuple _ _ _ _ => KHash s_tuple
+  | TArray _ _ _ => KHash s_array
+  | TRange _ _ _ => KHash s_range
+  | TMultiRange _ _ _ => KHash s_multirange
+  | TShape mt _ _ _ _ => KHash (oname mt)
+  | TInput mt _ _ => KHash (oname mt)
+  end.
+
+Lemma tid_kind : forall t, all_ok t ->
+  match tkind t with
+  | KGiven => Gset (tid' t)
+  | KHash h => nonul h /\ exists r, tid' t = H (h ++ 0 :: r) /\ Sset (h ++ 0 :: r)
+  end.
+Proof.
+  intros t X. apply all_ok_own in X.
+  destruct t as [sc|named pers name els|pers name el|pers name el|pers name el|mt free impl ptrs lps|mt free els];
+    cbn [tkind tid own_ok] in *.
+  - tauto.
+  - destruct els as [|e els]; [exact G_empty|].
+    destruct X as (_ & _ & XS). specialize (XS ltac:(discriminate)).
+    split; [apply kinds_nonul; simpl; auto|]. cbn [map tuple_id]. rewrite coll_head in *. eauto.
+  - split; [apply kinds_nonul; simpl; auto|]. unfold coll1_id. rewrite coll_head in *. eauto.
+  - split; [apply kinds_nonul; simpl; auto|]. unfold coll1_id. rewrite coll_head in *. eauto.
+  - split; [apply kinds_nonul; simpl; auto 6|]. unfold coll1_id. rewrite coll_head in *. eauto.
+  - destruct X as (Xn & _ & _ & XS & _). split; auto.
+    unfold shape_id_of, shape_id. rewrite shape_elems_plain.
+    destruct (shape_head mt impl ptrs lps) as [r Hr]. exists r. unfold shape_str in *.
+    rewrite <- Hr. auto.
+  - contradiction.
+Qed.
+
+(* equal ids => same kind of id, and for hashed ids the same head *)
+Lemma same_kind : forall t1 t2, all_ok t1 -> all_ok t2 -> tid' t1 = tid' t2 -> tkind t1 = tkind t2.
+Proof.
+  intros t1 t2 X1 X2 E. pose proof (tid_kind _ X1) as K1. pose proof (tid_kind _ X2) as K2.
+  destruct (tkind t1) as [|h1]; destruct (tkind t2) as [|h2]; auto.
+  - exfalso. destruct K2 as (_ & r & Er & Sr). rewrite E, Er in K1. eapply Fresh; eauto.
+  - exfalso. destruct K1 as (_ & r & Er & Sr). rewrite <- E, Er in K2. eapply Fresh; eauto.
+  - destruct K1 as (N1 & r1 & E1 & S1). destruct K2 as (N2 & r2 & E2 & S2).
+    rewrite E1, E2 in E. apply NoCollide in E; auto. f_equal. eapply heads_eq; eauto.
+Qed.
+
+Lemma kinds_distinct :
+  s_tuple <> s_array /\ s_tuple <> s_range /\ s_tuple <> s_multirange /\
+  s_array <> s_range /\ s_array <> s_multirange /\ s_range <> s_multirange.
+Proof. repeat split; discriminate. Qed.
+
+Lemma okcard_card_of : forall r m, okcard (card_of r m).
+Proof. intros [|] [|]; unfold okcard, card_of; cbv; repeat split; discriminate. Qed.
+
+Lemma card_of_inj : forall r1 m1 r2 m2, card_of r1 m1 = card_of r2 m2 -> r1 = r2 /\ m1 = m2.
+Proof. intros [|] [|] [|] [|] E; cbv in E; try discriminate; auto. Qed.
+
+(* two lists built as  (not link props) ++ (link props)  with equal flag lists split at the
+   same place *)
+Lemma lp_split : forall (a a' b b' : nat),
+  repeat false a ++ repeat true b = repeat false a' ++ repeat true b' -> a = a' /\ b = b'.
+Proof.
+  induction a as [|a IH]; intros [|a'] b b' E; simpl in E.
+  - split; auto. apply (f_equal (@length bool)) in E. rewrite !repeat_length in E. auto.
+  - destruct b; simpl in E; discriminate.
+  - destruct b'; simpl in E; discriminate.
+  - inversion E as [E']. apply IH in E'. destruct E'; subst; auto.
+Qed.
+
+Lemma map_const : forall {A B} (f : A -> B) (l : list A) (v : B),
+  (forall a, f a = v) -> map f l = repeat v (length l).
+Proof. induction l; intros; simpl; auto. rewrite H0. f_equal. auto. Qed.
+
+Lemma map_eq_pointwise : forall {A B} (f : A -> B) (l1 l2 : list A),
+  map f l1 = map f l2 -> Forall2 (fun a b => f a = f b) l1 l2.
+Proof.
+  induction l1; intros [|b l2] E; simpl in E; try discriminate; constructor.
+  - inversion E; auto.
+  - apply IHl1. inversion E; auto.
+Qed.
+
+Lemma Forall2_app_split : forall {A} (R : A -> A -> Prop) (a a' b b' : list A),
+  length a = length a' -> Forall2 R (a ++ b) (a' ++ b') -> Forall2 R a a' /\ Forall2 R b b'.
+Proof.
+  induction a; intros [|x a'] b b' L F; simpl in *; try discriminate; auto.
+  inversion F; subst. destruct (IHa a' b b') as [F1 F2]; auto.
+Qed.
+
+Lemma app_eq_len : forall {A} (a a' b b' : list A),
+  length a = length a' -> a ++ b = a' ++ b' -> a = a' /\ b = b'.
+Proof. intros. apply app_inv_len; auto. Qed.
+
+(* element-wise consequence of equal element ids + equal cardinalities *)
+Lemma elem_sub_eq : forall p1 p2,
+  all_ok (snd p1) -> all_ok (snd p2) -> elem_set_ok p1 -> elem_set_ok p2 ->
+  pmulti (fst p1) = pmulti (fst p2) ->
+  (if pmulti (fst p1) then set_id H (tid' (snd p1)) else tid' (snd p1))
+  = (if pmulti (fst p2) then set_id H (tid' (snd p2)) else tid' (snd p2)) ->
+  tid' (snd p1) = tid' (snd p2).
+Proof.
+  intros p1 p2 X1 X2 S1 S2 M E. rewrite <- M in E. destruct (pmulti (fst p1)) eqn:Mu; auto.
+  unfold set_id in E. apply NoCollide in E.
+  - apply set_idstr_inj in E; auto; apply tid_wf; auto.
+  - apply S1; auto.
+  - apply S2; congruence.
+Qed.
+
+Definition same_skel (t1 t2 : ty) : Prop := skel t1 = skel t2.
+
+Lemma skel_list : forall {A} (g : A -> A) (l1 l2 : list (A * ty)),
+  Forall2 (fun a b => g (fst a) = g (fst b) /\ skel (snd a) = skel (snd b)) l1 l2 ->
+  map (fun p => (g (fst p), skel (snd p))) l1 = map (fun p => (g (fst p), skel (snd p))) l2.
+Proof. induction 1; simpl; auto. destruct H0 as [-> ->]. f_equal; auto. Qed.
+
+Theorem id_inj : forall t1, all_ok t1 -> forall t2, all_ok t2 ->
+  tid' t1 = tid' t2 -> skel t1 = skel t2.
+Proof.
+  intros t1. induction t1 using ty_ind'; intros X1 t2 X2 E;
+    pose proof (same_kind _ _ X1 X2 E) as SK;
+    pose proof (all_ok_own _ X1) as O1; pose proof (all_ok_own _ X2) as O2.
+  - (* scalar *)
+    destruct t2 as [sc|named pers name els|? ? ?|? ? ?|? ? ?|mt free impl ptrs lps|? ? ?];
+      cbn [tkind] in SK; try discriminate.
+    + cbn [tid own_ok] in *. f_equal. apply ScById; tauto.
+    + destruct els; [|discriminate]. cbn [tid own_ok tuple_id map] in *. exfalso. tauto.
+  - (* tuple *)
+    destruct t2 as [sc|named2 pers2 name2 els2|? ? ?|? ? ?|? ? ?|mt free impl ptrs lps|? ? ?];
+      cbn [tkind] in SK.
+    + destruct els; [|discriminate]. cbn [tid own_ok tuple_id map] in *. exfalso.
+      destruct O2 as (_ & O2 & _). apply O2. auto.
+    + destruct els as [|e1 els]; destruct els2 as [|e2 els2]; try discriminate.
+      * cbn [own_ok] in O1, O2. destruct named; [exfalso; apply (proj1 O1); auto|].
+        destruct named2; [exfalso; apply (proj1 O2); auto|]. reflexivity.
+      * cbn [tid tuple_id] in E. cbn [own_ok] in O1, O2.
+        destruct O1 as (Oe1 & On1 & OS1). destruct O2 as (Oe2 & On2 & OS2).
+        specialize (OS1 ltac:(discriminate)). specialize (OS2 ltac:(discriminate)).
+        remember (e1 :: els) as L1. remember (e2 :: els2) as L2.
+        assert (ES : coll_idstr s_tuple (map (fun p => tid' (snd p)) L1) (if named then Some (map fst L1) else None)
+                     = coll_idstr s_tuple (map (fun p => tid' (snd p)) L2) (if named2 then Some (map fst L2) else None)).
+        { apply NoCollide; auto. subst L1 L2. exact E. }
+        cbn [all_ok] in X1, X2. destruct X1 as [_ X1]. destruct X2 as [_ X2].
+        apply go_forall in X1. apply go_forall in X2.
+        apply coll_idstr_inj in ES.
+        -- destruct ES as (_ & ESub & ENm).
+           assert (named = named2 /\ (named = true -> map fst L1 = map fst L2)).
+           { subst L1 L2. destruct named; destruct named2; cbn [names_norm map] in ENm; try discriminate; auto.
+             split; auto. intros _. inversion ENm. reflexivity. }
+           destruct H1 as [-> ENames]. cbn [skel]. f_equal.
+           assert (F2 : Forall2 (fun a b => tid' (snd a) = tid' (snd b)) L1 L2)
+             by (apply (map_eq_pointwise (fun p => tid' (snd p))); exact ESub).
+           assert (FN : named2 = true -> Forall2 (fun a b => fst a = fst b) L1 L2)
+             by (intro Hn; apply (map_eq_pointwise fst); auto).
+           clear -H0 X1 X2 F2 FN On1 HeqL1.
+           assert (NM : named2 = false -> True) by auto.
+           (* unnamed tuples: element names are not part of the skeleton either way *)
+           admit.
+        -- apply kinds_nonul; simpl; auto.
+        -- apply kinds_nonul; simpl; auto.
+        -- apply Forall_map. eapply Forall_impl; [|exact X1]. intros; apply tid_wf; auto.
+        -- apply Forall_map. eapply Forall_impl; [|exact X2]. intros; apply tid_wf; auto.
+        -- intros l Hl. destruct named; inversion Hl; subst. rewrite !map_length. split; auto.
+        -- intros l Hl. destruct named2; inversion Hl; subst. rewrite !map_length. split; auto.
+Abort.
+
+End Main.
